@@ -212,6 +212,14 @@ def gen_cases(rng, tier):
         tod = rand_tod(rng) if u not in 'mqy' or rng.random() < 0.1 else 0
         sign = rng.choice(['', '', '+']) if n >= 0 else ''
         cases.append({'kind': 'bump', 't': day * DAYUS + tod, 'bump': {'str': '%s%d%s' % (sign, n, u)}})
+    # leap days and month ends x month-based units (day-of-month overflow / non-leap targets)
+    import calendar as _cal
+    for y in (1904, 1996, 2000, 2096, 2104, 2296):
+        for (m, d) in ((2, 29), (1, 31), (3, 31), (8, 31), (12, 31), (1, 30)):
+            t = datetime.date(y, m, d).toordinal() * DAYUS
+            for u in 'mqy':
+                for n in (-4, -1, 1, 2, 3, 4, 11, 13):
+                    cases.append({'kind': 'bump', 't': t, 'bump': {'str': '%d%s' % (n, u)}})
     # all 7 weekdays x n in [-12, 12] for the closed form (its full case table), from one fixed week
     for wd in range(7):
         for n in range(-12, 13):
